@@ -177,7 +177,7 @@ Proof.
   intros Hreg Horig Hh.
   destruct (reg_ok_dec st k0) as [Hok|Hbad].
   - destruct (register_ok_shape id id_dec digest dg_dec payload (cfgOf h) st k0 v mm st' o0 Hok Hreg)
-      as (S1&S2&S3&S4&S5&S6&S7&S8&S9&S10&S11&S12).
+      as (S1&S2&S3&S4&S5&S6&S7&S8&S9&S10&S11&S12&S13&S14).
     assert (Hk : forall k, k = k0 \/ k <> k0).
     { intros k. destruct (key_dec id_dec dg_dec k k0); auto. }
     split. { intros s r d Hp. rewrite S3; [exact Hp|congruence]. }
